@@ -45,6 +45,7 @@ func c14Order(c *run.Ctx) {
 			lines = append(lines, fmt.Sprintf("let t%d = %s;", len(lets), expr))
 			lets = append(lets, v)
 		}
+		lastLoadCell := -1
 		ns := r.Range(6, 14)
 		endWithLoad := r.Bool()
 		for s := 0; s < ns; s++ {
@@ -57,12 +58,15 @@ func c14Order(c *run.Ctx) {
 					kind = 50
 				}
 			}
+			lastLoadCell = -1
 			switch k := kind; {
 			case k == 50:
 				p := r.Intn(len(ptrs))
 				newLet(fmt.Sprintf("*p%d", p), b[ptrs[p]])
+				lastLoadCell = ptrs[p]
 			case k == 0 || len(lets) == 0:
 				newLet(fmt.Sprintf("b[%d]", cell), b[cell])
+				lastLoadCell = cell
 			case k == 1:
 				if r.Bool() {
 					newLet(fmt.Sprintf("b[%d] * %s", cell, e.text), b[cell]*e.val)
@@ -105,6 +109,12 @@ func c14Order(c *run.Ctx) {
 		// results are written either through fresh access chains, or through pointer lets declared before everything
 		// else - then the stores add no expression and the function's last expression is the last load
 		ptrTail := r.Bool()
+		if ptrTail && lastLoadCell >= 0 && len(lets) > 1 {
+			// overwrite the cell that was loaded last, through a pointer let declared up front (no new expression)
+			t := r.Intn(len(lets) - 1)
+			lines = append(lines, fmt.Sprintf("*pb%d = t%d;", lastLoadCell, t))
+			b[lastLoadCell] = lets[t]
+		}
 		for k := range lets {
 			if ptrTail {
 				lines = append(lines, fmt.Sprintf("*q%d = t%d;", k, k))
@@ -116,6 +126,9 @@ func c14Order(c *run.Ctx) {
 			var pre []string
 			for k := range lets {
 				pre = append(pre, fmt.Sprintf("let q%d = &o[%d];", k, k))
+			}
+			for k := range b {
+				pre = append(pre, fmt.Sprintf("let pb%d = &b[%d];", k, k))
 			}
 			lines = append(pre, lines...)
 		}
